@@ -820,13 +820,28 @@ class OraclesMixin:
             if ";" in self.strip_sql_literals(q):
                 self.violate("C19", "O19.1", f"build_query on {rep} returned more than one statement", rep=rep, op=op, kind="semicolon")
             if r2[0] != "ok" or r2[1] != q:
-                self.violate("C19", "O19.2", f"two build_query calls on one table return different text on {rep}", rep=rep, op=op, tail=tail)
+                import os
+
+                if os.environ.get("PDT_VERIF_DUMP_O192"):
+                    with open(os.environ["PDT_VERIF_DUMP_O192"], "a") as fh:
+                        fh.write(f"=== {rep} {pt.id}\n--- first\n{q}\n--- second\n{r2[1] if r2[0] == 'ok' else r2[1]}\n")
+                kind = "anon_numbering_only" if (r2[0] == "ok" and self.norm_anon(r2[1]) == self.norm_anon(q)) else "text"
+                self.violate("C19", "O19.2", f"two build_query calls on one table return different text on {rep}" + (" (only the numbering of SQLAlchemy's anonymous sub-query names differs)" if kind != "text" else ""), rep=rep, kind=kind, op=op, tail=tail)
             key = (rep, "q19")
-            if key in pt.first_digest and pt.first_digest[key] != sha(q):
-                self.violate("C19", "O19.2", f"build_query text of an unchanged table changed on {rep}", rep=rep, op=op, tail=tail)
-            pt.first_digest[key] = sha(q)
-            out[rep] = sha(q)
+            dq = (sha(q), sha(self.norm_anon(q)))
+            if key in pt.first_digest and pt.first_digest[key][0] != dq[0]:
+                kind = "anon_numbering_only" if pt.first_digest[key][1] == dq[1] else "text"
+                self.violate("C19", "O19.2", f"build_query text of an unchanged table changed on {rep}" + (" (only the numbering of SQLAlchemy's anonymous sub-query names differs)" if kind != "text" else ""), rep=rep, kind=kind, op=op, tail=tail)
+            pt.first_digest[key] = dq
+            # (the event log carries the text modulo that numbering, see K-03)
+            out[rep] = dq[1]
         return out
+
+    @staticmethod
+    def norm_anon(q: str) -> str:
+        import re
+
+        return re.sub(r"\banon_\d+\b", "anon_#", q)
 
     @staticmethod
     def strip_sql_literals(q: str) -> str:
